@@ -884,6 +884,12 @@ func runC02(p *an.Prog, r *an.Run, tier string) {
 	// "the client is debited exactly the sum ... a failed update is all-or-nothing" as far as structure can tell)
 	checkPairing(p, r, onUpdate, false)
 	checkBigIntOwnership(p, r)
+	// who is billed is who the store tracks as the client's active peers, and what is moved is what the drivers write:
+	// the tracked-peer rules of C11 and the drivers' ledger rules of C01 are necessary conditions here too
+	runC11(p, r, tier)
+	for _, d := range p.Implementations(p.Iface("pool/store", "Store")) {
+		checkDriverLedger(p, r, d)
+	}
 
 	// lastseen-writers: outside the drivers a node record is only ever (re)written with LastSeen = time.Now();
 	// writing back an older record rewinds LastSeen and the same stretch of time is billed again
